@@ -327,11 +327,19 @@ func c18(r *Report, s *Sem) {
 			}
 		})
 		okOne := len(estCb) == 1 && estCb[0].Parent() == serving && !reachesInstr(estCb[0], estCb[0])
+		syncEst := false
+		if okOne {
+			_, syncEst = estCb[0].(*ssa.Call) // completed before the dispatch loop starts: not `go`, not deferred
+			okOne = syncEst
+		}
 		gated := okOne && hasAtom(s.AtomsAt(estCb[0]), "state==", "established")
 		before := okOne && listenCall != nil && !reachesInstr(listenCall, estCb[0]) && reachesInstr(estCb[0], listenCall)
 		r.Check(R3, "func "+fnName(serving)+" / Established fires once, only when established, before any handler", p.pos(serving.Pos()), okOne && gated && before,
-			fmt.Sprintf("call sites=%d, gated=%v, before the dispatch loop=%v", len(estCb), gated, before))
+			fmt.Sprintf("call sites=%d, synchronous call=%v, gated=%v, before the dispatch loop=%v", len(estCb), syncEst, gated, before))
 		okFin := len(finCb) == 1
+		if okFin {
+			_, okFin = finCb[0].(*ssa.Call)
+		}
 		var def *ssa.Defer
 		if okFin {
 			cl := finCb[0].Parent()
